@@ -214,6 +214,7 @@ def limits_rule(chk, rule: str, fn, what: str, tail_attr: str):
     """RP2: the limit a *buffered partial* line is compared with equals the limit of a *complete* line
     at the same syntactic position."""
     raises = [(n, cls) for n, cls in K.raises_in(fn.node) if cls and cls.endswith("LineTooLong")]
+    spellings = K.tail_spellings(fn, tail_attr)  # the partial line may be measured on the value about to be stored
     partial, complete = [], []
     for n, _cls in raises:
         clauses = PC.pc(n)
@@ -228,7 +229,7 @@ def limits_rule(chk, rule: str, fn, what: str, tail_attr: str):
                 left, right = norm.raw(e.left), norm.raw(e.comparators[0])
                 state = sorted(l.text for l in PC.units(clauses) if l.pos and M.match_text("self._chunk == $S", l.text))
                 rec = (n, left, right, state)
-                if tail_attr in left:
+                if tail_attr in left or any(sp in left for sp in spellings[1:]):
                     partial.append(rec)
                 elif "len(" in left or left in ("pos", "line_len") or left.startswith("header_length"):  # line_len: pos minus the CR of a lax line ending
                     complete.append(rec)
@@ -364,7 +365,8 @@ def run(chk):
     for st, _b in K.stmts(hp, "data = EMPTY"):
         blk = PC._block_of(st)
         prior = blk[: blk.index(st)]
-        if any(M.contains(p, "data[$S:]") and isinstance(p, ast.Assign) and "self._tail" in norm.raw(p.targets[0]) for p in prior):
+        # (the stored value may reach the attribute through a local that was measured first: `tail = data[start_pos:] ... self._tail = tail`)
+        if any(isinstance(p, ast.Assign) and "self._tail" in norm.raw(p.targets[0]) and M.contains(norm.subst(p.value, p), "data[$S:]") for p in prior):
             chk.ok("C03.save", st, "unconsumed input `data[start_pos:]` is stored in self._tail before the local buffer is dropped")
             n_save += 1
         elif not K.loop_ancestors(st):
@@ -432,6 +434,7 @@ def run(chk):
                     elif norm.raw(t) == f"self.{attr}":
                         vals.append(n.value)
             for v in vals:
+                v = norm.subst(v, n)  # a single-definition local stands for its value
                 t = norm.raw(v)
                 suffix = isinstance(v, ast.Subscript) and isinstance(v.value, ast.Name) and v.value.id == buf and isinstance(v.slice, ast.Slice) and v.slice.upper is None and v.slice.step is None
                 if (isinstance(v, ast.Constant) and not v.value) or t == buf or suffix:
